@@ -282,7 +282,14 @@ pub fn restore(s: &Snapshot) -> Snapshot {
             }
             out.insert(&format!("{name}.toml"), stripped);
         } else if flag("launch") {
+            // launch-only layer: the metadata comes back from the previous image, and so do the
+            // layer's SBOM files (the lifecycle copies them next to a restored <layer>.toml); the
+            // directory does not
             out.insert(&format!("{name}.toml"), stripped);
+            let prefix = format!("{name}.sbom.");
+            for (k, n) in s.filter_top(|top| top.starts_with(prefix.as_bytes())).0 {
+                out.0.insert(k, n);
+            }
         }
     }
     out
